@@ -259,6 +259,10 @@ def l_islice(ex, st, pos, kw, node, star, dstar):
 LAT.add('islice', ['iterator'])
 
 
+def l_random_new(ex, st, pos, kw, node, star, dstar):
+    o = st.alloc('Random'); st.wr(o, 'seed', pos[0] if pos else NONE); st.g.setdefault('randoms', []).append(o); return val(st, o)
+
+
 def noop(ex, st, pos, kw, node, star, dstar):
     return val(st, NONE)
 
@@ -398,7 +402,7 @@ def install(ex):
     L.update({'builtins.len': b_len, 'builtins.isinstance': b_isinstance, 'builtins.callable': b_callable, 'builtins.str': b_str,
               'builtins.repr': b_repr, 'builtins.bool': b_bool, 'builtins.list': b_list, 'builtins.tuple': b_list, 'builtins.dict': b_dict,
               'builtins.type': b_type, 'builtins.iter': b_iter, 'builtins.hasattr': b_hasattr, 'builtins.enumerate': b_enumerate,
-              'functools.reduce': l_reduce, 'builtins.round': b_round, 'itertools.islice': l_islice, 'builtins.int': b_int, 'builtins.float': b_float, 'builtins.bytes': b_bytes, 'builtins.set': b_set, 'builtins.frozenset': b_set,
+              'functools.reduce': l_reduce, 'random.Random': l_random_new, 'builtins.round': b_round, 'itertools.islice': l_islice, 'builtins.int': b_int, 'builtins.float': b_float, 'builtins.bytes': b_bytes, 'builtins.set': b_set, 'builtins.frozenset': b_set,
               'time.time': l_time, 'jsonpickle.encode': l_encode_nondet, 'datetime.datetime.utcnow': l_utcnow, 'uuid.uuid1': l_uuid1,
               'collections.Counter': l_counter, 'collections.OrderedDict': l_ordereddict, 'threading.local': l_threadlocal,
               'six.text_type': b_str})
